@@ -5,7 +5,10 @@ package main
 // httptest leader); plus the follower read scenario: the real brain server + real service.NewPeerService +
 // real backends (leader and follower over one shared memkv store) with the leader's /status handler, the
 // follower's SetCurrentRevision and the follower's backend read gated so that a schedule of
-// begin / enter (flight.Do) / answer / reply / set / serve steps is replayed deterministically.
+// begin / enter (flight.Do) / answer / reply / set / serve steps is replayed deterministically; plus the
+// forwarding scenario: a follower's real etcd server with the REAL etcd proxy (etcdproxy.NewEtcdProxy through
+// service.NewPeerService) towards a REAL leader (etcd.RPCServer over a real memkv backend on a loopback gRPC
+// listener) whose unary interceptor can, when armed by the script, execute a Txn and then lose its answer.
 
 import (
 	"bytes"
@@ -22,10 +25,12 @@ import (
 	"strconv"
 	"strings"
 	"sync"
+	"sync/atomic"
 	"time"
 
 	"go.etcd.io/etcd/api/v3/etcdserverpb"
 	"go.etcd.io/etcd/api/v3/mvccpb"
+	"google.golang.org/grpc"
 	"google.golang.org/grpc/codes"
 	"google.golang.org/grpc/metadata"
 	"google.golang.org/grpc/status"
@@ -323,6 +328,7 @@ type rolesSuite struct {
 
 	opts map[string]string
 	sc   *scen
+	fw   *fwdScen
 }
 
 // notLeaderStatusHandler is the real peer /status handler (pkg/server revisionHandler) of a node whose leader
@@ -342,6 +348,7 @@ func notLeaderStatusHandler(b backend.Backend) http.Handler {
 func hostOf(url string) string { return strings.TrimPrefix(url, "http://") }
 
 func newRolesSuite(opts map[string]string) suite {
+	fwdEpoch++ // every cfg starts with a fresh key space on the process-wide forwarding leader
 	s := &rolesSuite{rec: &recBackend{}, el: &scriptElection{}, px: &scriptProxy{}, opts: opts}
 	s.okSrv = httptest.NewServer(http.HandlerFunc(func(w http.ResponseWriter, r *http.Request) {
 		// what server.revisionHandler does on the leader
@@ -679,6 +686,14 @@ func (s *rolesSuite) do(t []string) string {
 			s.sc = newScen(s.opts)
 		}
 		return s.sc.do(pos, opts)
+	case "fwd":
+		if len(pos) != 2 {
+			return "fwd bad-op"
+		}
+		if s.fw == nil {
+			s.fw = getFwdScen()
+		}
+		return s.fw.do(pos[1], opts)
 	}
 	return t[0] + " bad-op"
 }
@@ -1166,4 +1181,134 @@ func (sc *scen) phaseOf(rc *readCtl) string {
 	sc.mu.Lock()
 	defer sc.mu.Unlock()
 	return rc.phase
+}
+
+// ---------------------------------------------------------------- forwarding scenario (real etcd proxy)
+
+// fwdScen: the follower's REAL etcd.RPCServer whose peer service is the real service.NewPeerService with the
+// etcd proxy enabled (etcdproxy.NewEtcdProxy, clientv3 connection to the leader), over a recording backend (it
+// must stay untouched); the leader is the REAL etcd.RPCServer over a real backend on the in-memory engine,
+// served on a loopback gRPC listener.  The leader's unary interceptor counts the Txn executions and, when the
+// script arms it (`lose=1`), lets the handler run and then answers codes.Unavailable instead of the response —
+// what grpc-go reports when the connection breaks after the request was sent and executed.
+//
+//	fwd <create|update> k=<n> [stale=1] [lose=1] -> fwd <shape> <ok|failed|unavailable|error:other> exec=<leader-side
+//	    executions of the Txn for this request> applied=<0|1: the key now holds this request's value> local=<follower backend calls|->
+type fwdScen struct {
+	leaderSrv *etcd.RPCServer
+	follower  *etcd.RPCServer
+	rec       *recBackend
+	lose      int32
+	executed  int32
+	seq       int
+}
+
+var (
+	fwdShared *fwdScen // the leader backend cannot be stopped (busy sequencer loop): one per process
+	fwdEpoch  int
+)
+
+func getFwdScen() *fwdScen {
+	if fwdShared != nil {
+		return fwdShared
+	}
+	lis, err := net.Listen("tcp", "127.0.0.1:0")
+	if err != nil {
+		panic(err)
+	}
+	addr := lis.Addr().String()
+	f := &fwdScen{rec: &recBackend{}}
+	lb := backend.NewBackend(imemkv.NewKvStorage(), backend.Config{Prefix: "/r", Identity: addr, WatchCacheSize: 64}, getMetrics())
+	lb.SetCurrentRevision(1000)
+	lp := service.NewPeerService(&leader.Stub{ElectionInfo: leader.ElectionInfo{IsLeader: true, LeaderAddress: addr}},
+		getMetrics(), lb, service.Config{})
+	f.leaderSrv = etcd.New(lb, getMetrics(), lp)
+	gs := grpc.NewServer(grpc.UnaryInterceptor(func(ctx context.Context, req interface{}, info *grpc.UnaryServerInfo, h grpc.UnaryHandler) (interface{}, error) {
+		resp, err := h(ctx, req)
+		if info.FullMethod == "/etcdserverpb.KV/Txn" {
+			atomic.AddInt32(&f.executed, 1)
+			if atomic.CompareAndSwapInt32(&f.lose, 1, 0) {
+				return nil, status.Error(codes.Unavailable, "transport is closing")
+			}
+		}
+		return resp, err
+	}))
+	f.leaderSrv.Register(gs)
+	go gs.Serve(lis)
+	fp := service.NewPeerService(&leader.Stub{ElectionInfo: leader.ElectionInfo{IsLeader: false, LeaderAddress: addr}},
+		getMetrics(), f.rec, service.Config{EnableEtcdProxy: true})
+	f.follower = etcd.New(f.rec, getMetrics(), fp)
+	fwdShared = f
+	return f
+}
+
+// current state of a key on the leader (read in process, on the leader's own server object)
+func (f *fwdScen) leaderKV(key []byte) (val []byte, modRev int64) {
+	ctx, cancel := context.WithTimeout(context.Background(), 5*time.Second)
+	defer cancel()
+	r, err := f.leaderSrv.Range(ctx, &etcdserverpb.RangeRequest{Key: key})
+	if err != nil || len(r.Kvs) == 0 {
+		return nil, 0
+	}
+	return r.Kvs[0].Value, r.Kvs[0].ModRevision
+}
+
+func (f *fwdScen) do(shape string, opts map[string]string) string {
+	if _, ok := opts["k"]; !ok {
+		return "fwd bad-op"
+	}
+	key := []byte(fmt.Sprintf("/r/f%04d-%04d", fwdEpoch, atoi(opts["k"])))
+	f.seq++
+	val := []byte(fmt.Sprintf("w%d", f.seq))
+	put := &etcdserverpb.RequestOp{Request: &etcdserverpb.RequestOp_RequestPut{RequestPut: &etcdserverpb.PutRequest{Key: key, Value: val}}}
+	get := &etcdserverpb.RequestOp{Request: &etcdserverpb.RequestOp_RequestRange{RequestRange: &etcdserverpb.RangeRequest{Key: key}}}
+	cmp := func(rev int64) []*etcdserverpb.Compare {
+		return []*etcdserverpb.Compare{{Target: etcdserverpb.Compare_MOD, Result: etcdserverpb.Compare_EQUAL, Key: key,
+			TargetUnion: &etcdserverpb.Compare_ModRevision{ModRevision: rev}}}
+	}
+	var txn *etcdserverpb.TxnRequest
+	switch shape {
+	case "create":
+		txn = &etcdserverpb.TxnRequest{Compare: cmp(0), Success: []*etcdserverpb.RequestOp{put}}
+	case "update":
+		// guarded by the key's current mod revision; stale=1 (or a missing key): by revision 1, which no key has
+		rev := int64(1)
+		if opts["stale"] != "1" {
+			if _, cur := f.leaderKV(key); cur != 0 {
+				rev = cur
+			}
+		}
+		txn = &etcdserverpb.TxnRequest{Compare: cmp(rev), Success: []*etcdserverpb.RequestOp{put}, Failure: []*etcdserverpb.RequestOp{get}}
+	default:
+		return "fwd bad-op"
+	}
+	f.rec.reset()
+	atomic.StoreInt32(&f.executed, 0)
+	if opts["lose"] == "1" {
+		atomic.StoreInt32(&f.lose, 1)
+	} else {
+		atomic.StoreInt32(&f.lose, 0)
+	}
+	ctx, cancel := context.WithTimeout(context.Background(), 10*time.Second)
+	resp, err := f.follower.Txn(ctx, txn)
+	cancel()
+	atomic.StoreInt32(&f.lose, 0)
+	ans := "ok"
+	switch {
+	case err != nil && status.Code(err) == codes.Unavailable:
+		ans = "unavailable"
+	case err != nil:
+		ans = "error:other"
+	case !resp.Succeeded:
+		ans = "failed"
+	}
+	applied := 0
+	if cur, _ := f.leaderKV(key); bytes.Equal(cur, val) {
+		applied = 1
+	}
+	cs := "-"
+	if calls := f.rec.snapshot(); len(calls) > 0 {
+		cs = strings.Join(calls, ",")
+	}
+	return fmt.Sprintf("fwd %s %s exec=%d applied=%d local=%s", shape, ans, atomic.LoadInt32(&f.executed), applied, cs)
 }
